@@ -13,6 +13,7 @@
 #include "leaf_ext.hpp"
 #include "hexio.hpp"
 #include <cstring>
+#include <locale>
 #include <map>
 #include <sstream>
 #include <memory>
@@ -307,12 +308,26 @@ std::string leaf_ext_run(const std::vector<std::string> & f)
         if (!client::try_parse_epsv_reply(r, port)) return "none";
         return std::to_string(port);
     }
-    if (k == "portcmd" || k == "eprtcmd")
+    if (k == "portcmd" || k == "eprtcmd" || k == "portcmd@grp" || k == "eprtcmd@grp")
     {
         size_t i = 1;
         boost::asio::ip::address a = ip_of(f, i);
         boost::asio::ip::tcp::endpoint ep(a, (unsigned short)std::stoul(f.at(i)));
-        return hex(k == "portcmd" ? client::make_port_command(ep) : client::make_eprt_command(ep));
+        // "@grp": the host application has installed a global C++ locale that groups digits (as en_US does): what goes on
+        // the wire is protocol syntax and must not change with it
+        struct grouping : std::numpunct<char>
+        {
+            char do_thousands_sep() const override { return ','; }
+            std::string do_grouping() const override { return "\3"; }
+        };
+        bool grp = k.size() > 4 && k.compare(k.size() - 4, 4, "@grp") == 0;
+        std::locale before;
+        if (grp) before = std::locale::global(std::locale(std::locale::classic(), new grouping));
+        std::string out;
+        try { out = hex(k[0] == 'p' ? client::make_port_command(ep) : client::make_eprt_command(ep)); }
+        catch (...) { if (grp) std::locale::global(before); throw; }
+        if (grp) std::locale::global(before);
+        return out;
     }
     if (k == "port_rt")
     {
